@@ -25,7 +25,7 @@ def subsets(cs):
 
 def gen_data(rng, method, n=None, m=None, extra=None, declared=None, positive=False):
     """alternatives, criteria and method parameters of a valid request"""
-    n = n or rng.randint(2, 5)
+    n = n or (1 if rng.random() < 0.1 else rng.randint(2, 5))      # a decision about a single alternative is a decision too
     m = m or rng.randint(2, 4)
     extra = rng.choice([0, 0, 1, 2]) if extra is None else extra
     lo = 0 if positive or method in ('choquetIntegral',) else rng.choice([0, 0, -2])
